@@ -457,9 +457,9 @@ func checkTemplateScanner(c *Ctx, u *Universe) {
 
 	// after the loop: literal closed with len, unterminated placeholder rejected (stack not a multiple of 3)
 	var after []ast.Stmt
-	for i, s := range fd.Body.List {
+	for i, s := range flatStmts(fd.Body.List) {
 		if s == loop {
-			after = fd.Body.List[i+1:]
+			after = flatStmts(fd.Body.List)[i+1:]
 		}
 	}
 	okPost := true
@@ -544,9 +544,9 @@ func checkDirectiveMachine(c *Ctx, u *Universe) {
 	// assumed; fields of a local struct count one by one); variables the loop body assigns from non-constant
 	// expressions are accumulators
 	var before []ast.Stmt
-	for i, st := range fd.Body.List {
+	for i, st := range flatStmts(fd.Body.List) {
 		if st == loop {
-			before = fd.Body.List[:i]
+			before = flatStmts(fd.Body.List)[:i]
 		}
 	}
 	pe0 := newPE(u, info, fd)
